@@ -20,7 +20,7 @@ RULE = (
     "neighbour list) increases; dft_recursive's output obeys the pre-order rule (next vertex = first unlisted "
     "in-universe neighbour of the deepest path vertex that has one).  Determinism: repeating the call (also, with neighbor caching on, after calls with other short-lived filter callables) and "
     "rebuilding the description on fresh objects after unrelated allocations give the same index sequence.  "
-    "Universes are optionally padded with 40 / 1000 isolated members, a few worlds are scaled up (a chain of 260 / 300 vertices in front of the start vertex and / or 70 / 340 / 1300 further links at the start vertex or the chain's head), and every case is evaluated again on the same objects after a membership swap.  A deep family (spines of 1300-4000 vertices with a leaf per vertex, i.e. deeper than the recursion limit) requires canonical orders from bft and dft_iterative and forbids a non-canonical answer from dft_recursive (RecursionError = no answer is tolerated).  Non-trivial = some expanded vertex had >= 2 not-yet-listed neighbours (a real choice) and the three orders "
+    "Where the reference says NotImplementedError the same call is issued three times and must raise every time; with the defaults (FORWARD, ERROR, no filter) the call is also made with every optional argument omitted.  Universes are optionally padded with 40 / 1000 isolated members, a few worlds are scaled up (a chain of 260 / 300 vertices in front of the start vertex and / or 70 / 340 / 1300 further links at the start vertex or the chain's head), and every case is evaluated again on the same objects after a membership swap.  A deep family (spines of 1300-4000 vertices with a leaf per vertex, i.e. deeper than the recursion limit) requires canonical orders from bft and dft_iterative and forbids a non-canonical answer from dft_recursive (RecursionError = no answer is tolerated).  Non-trivial = some expanded vertex had >= 2 not-yet-listed neighbours (a real choice) and the three orders "
     "are not all equal; distinct = distinct case value."
 )
 ASSUMPTIONS = [
